@@ -491,6 +491,7 @@ type HuntHit struct {
 	Site    string  `json:"site"`
 	Scen    *Scen   `json:"scen,omitempty"`
 	Mat     *MatCase `json:"mat,omitempty"`
+	Jet     *JetRef `json:"jet,omitempty"`
 	Failure string  `json:"failure"`
 	Aliased string  `json:"aliased"`
 	Fresh   string  `json:"fresh"`
